@@ -409,7 +409,10 @@ func (mr *msgReader) Read(p []byte) (n int, err error) {
 		p = p[:n]
 		mr.dict.write(p)
 	}
-	if errors.Is(err, io.EOF) || errors.Is(err, io.ErrUnexpectedEOF) && mr.fin && mr.flate {
+	// Only the message's own end may be reported as io.EOF: mr.read returns a bare io.EOF
+	// once the final frame has been consumed, and the inflater a bare io.ErrUnexpectedEOF
+	// after the deflate tail. Transport errors are always wrapped and must stay errors.
+	if err == io.EOF || err == io.ErrUnexpectedEOF && mr.fin && mr.payloadLength == 0 && mr.flate {
 		mr.putFlateReader()
 		return n, io.EOF
 	}
